@@ -12,6 +12,7 @@
 // sess     receiver session id (done: the message being signed)
 // aux1     announcer protocol id | follower wallet hash id | done attempt number
 // aux2     follower coordination block | done attempt timeout block
+// allowed  follower: allowed action types | done: member indexes of the signing attempt
 // msgs     idx:netKey:msgKey:sess:aux1:aux2:action:sig  (comma separated, fed in order)
 //
 // Obs line: one outcome per message: stored | dropped | fault-imp | fault-mistake
@@ -474,7 +475,11 @@ func execDone(o *opT, mv *group.MembershipValidator) []string {
 	dc := tbtc.VerifC12NewDoneCheck(len(o.ops), ch, mv)
 	ctx, cancel := context.WithCancel(context.Background())
 	defer cancel()
-	dc.Listen(ctx, big.NewInt(int64(o.sess)), uint64(o.aux1), uint64(o.aux2), nil)
+	attempt := make([]group.MemberIndex, 0, len(o.allowed))
+	for _, a := range o.allowed {
+		attempt = append(attempt, uint8(a))
+	}
+	dc.Listen(ctx, big.NewInt(int64(o.sess)), uint64(o.aux1), uint64(o.aux2), attempt)
 	ch.waitRegistered()
 	var out []string
 	for _, m := range o.msgs {
@@ -649,7 +654,15 @@ func baseOp(r *hx.Rng, step string, ops []int) *opT {
 				o.allowed = append(o.allowed, a)
 			}
 		}
-	case "done", "mv":
+	case "done":
+		o.selfs = nil
+		// members of the signing attempt: mostly every seat
+		for s := 1; s <= minI(n, 255); s++ {
+			if !r.Chance(1, 6) {
+				o.allowed = append(o.allowed, s)
+			}
+		}
+	case "mv":
 		o.selfs = nil
 	}
 	return o
